@@ -348,7 +348,9 @@ func runCase(idx int, raw json.RawMessage) (res batch.Result) {
 	exit := exitPath(c.Cause)
 	pr.feat = func() map[string]string {
 		if c.Other != nil {
-			return vf.F("exit", exit, "other_session", c.Other.label(cfg.RRClient))
+			// the order of registration is in the detail
+			l, _, _ := strings.Cut(c.Other.label(cfg.RRClient), ",")
+			return vf.F("exit", exit, "other_session", l)
 		}
 		return vf.F("exit", exit)
 	}
@@ -427,6 +429,9 @@ func runCase(idx int, raw json.RawMessage) (res batch.Result) {
 		// ---- (re-)establish ----
 		s, err = sessgen.Establish(p, cfg)
 		pr.where = fmt.Sprintf("%s/%s/%s/%s round %d", c.Cause, cfg.Kind(), chain, fams, round)
+		if c.Other != nil {
+			pr.where += " [other session: " + c.Other.label(cfg.RRClient) + "]"
+		}
 		if err != nil {
 			if round == 0 {
 				res.Inconcl = "cannot establish: " + err.Error()
